@@ -134,6 +134,38 @@ def check(ctx):
                 ctx.fail("oracle", "C07/oracle/distances", f"{sc2['name']}: FCCutoff distance between atoms {i},{j} is {fc.distances[i, j]:.6f}, the minimum-image distance is {ref[i, j]:.6f}",
                          replay={"cell": sc2["name"], "lattice": np.asarray(sc2["lattice"]).tolist(), "positions": np.asarray(sc2["positions"]).tolist(), "i": int(i), "j": int(j)}, has_input=True)
 
+    # ---- distances on random triclinic lattices (all-acute, all-obtuse and mixed cell angles between 50 and 130 degrees; cell edges of
+    # unequal length) with atoms at random general positions, also outside [0,1): which of the 27 neighbouring images of the reduced
+    # cell holds the nearest copy depends on the signs of the off-diagonal metric entries, so both sign patterns must occur
+    n_acute = n_obtuse = 0
+    for trial in range(40 if ctx.quick else 400):
+        while True:
+            a_, b_, c_ = rng.uniform(3.0, 7.5, size=3)
+            kind_ = trial % 3
+            lo_, hi_ = ((50.0, 88.0), (92.0, 130.0), (50.0, 130.0))[kind_]
+            al_, be_, ga_ = np.radians(rng.uniform(lo_, hi_, size=3))
+            cx_ = np.cos(be_)
+            cy_ = (np.cos(al_) - np.cos(be_) * np.cos(ga_)) / np.sin(ga_)
+            if 1 - cx_ ** 2 - cy_ ** 2 > 0.15:
+                break
+        Lr = np.array([[a_, 0, 0], [b_ * np.cos(ga_), b_ * np.sin(ga_), 0], [c_ * cx_, c_ * cy_, c_ * np.sqrt(1 - cx_ ** 2 - cy_ ** 2)]])
+        Nr = int(rng.integers(5, 13))
+        pos_r = rng.uniform(-0.5, 1.5, size=(Nr, 3))
+        scr = {"lattice": Lr, "positions": pos_r, "numbers": np.arange(1, Nr + 1), "name": f"random-triclinic-{('acute', 'obtuse', 'mixed')[kind_]}-{trial}"}
+        n_acute += kind_ == 0
+        n_obtuse += kind_ == 1
+        fc = FCCutoff(atoms_of(scr), cutoff=1.0)
+        ref = min_image_distances(Lr, pos_r)
+        err = float(np.abs(fc.distances - ref).max())
+        ctx.case({"cell": scr["name"], "N": Nr}, nontrivial=True)
+        ctx.count("distances-random-triclinic")
+        if err > 1e-7:
+            i, j = np.unravel_index(np.abs(fc.distances - ref).argmax(), ref.shape)
+            ctx.fail("oracle", "C07/oracle/distances/random-triclinic", f"{scr['name']} (a,b,c = {a_:.3f},{b_:.3f},{c_:.3f}; angles {np.degrees(al_):.1f},{np.degrees(be_):.1f},{np.degrees(ga_):.1f}): FCCutoff distance between atoms {i},{j} "
+                     f"is {fc.distances[i, j]:.6f}, the minimum-image distance is {ref[i, j]:.6f}",
+                     replay={"cell": scr["name"], "lattice": Lr.tolist(), "positions": pos_r.tolist(), "i": int(i), "j": int(j)}, has_input=True)
+    ctx.require("random triclinic lattices of both sign patterns were drawn", n_acute >= 5 and n_obtuse >= 5)
+
     # ---- API level: zeros outside, monotone, large cutoff = none, dictionaries
     api_cells = [("tri1", (2, 1, 1)), ("tri2_P1", (2, 1, 1)), ("hcp", (1, 1, 1)), ("tri1", (3, 1, 1)), ("tri2_obtuse", (2, 1, 1)), ("sheared", (2, 1, 1)), ("mono_P", (2, 1, 1))]
     if not ctx.quick:
